@@ -82,15 +82,23 @@ fn ro_case(h: &History, path: &std::path::Path, calls: &mut u64) -> Result<Vec<(
     replay_model(h, &mut model);
     let before = util::fingerprint(&std::fs::read(path).map_err(|e| e.to_string())?);
     // opening (and closing) an existing database must not change the file
-    {
-        let db = exec::open_db(path, h).map_err(|e| e.to_string())?;
+    for k in 0..4u64 {
+        // with the options it was created with, and with other initial page counts (no effect on an existing file)
+        let db = exec::reopen_db(path, h, k).map_err(|e| e.to_string())?;
+        {
+            let tx = db.tx(false).map_err(|e| e.to_string())?;
+            if let Some(d) = exec::verify_tx_against(&tx, &model, false) {
+                viol.push((format!("open:contents-changed:{}", exec::classify_diff(&d)), format!("after reopening an existing database (option variant {}): {}", k, d)));
+            }
+        }
         drop(db);
         let after_open = util::fingerprint(&std::fs::read(path).map_err(|e| e.to_string())?);
         if after_open != before {
             viol.push((
                 "open:file-bytes-changed".into(),
-                "opening and closing an existing database changed the file's bytes".into(),
+                format!("opening and closing an existing database (option variant {}) changed the file's bytes", k),
             ));
+            break;
         }
     }
     let db = exec::open_db(path, h).map_err(|e| e.to_string())?;
@@ -192,6 +200,98 @@ fn ro_case(h: &History, path: &std::path::Path, calls: &mut u64) -> Result<Vec<(
     Ok(viol)
 }
 
+/// (e) a commit that fails with an I/O error and does not reach the file leaves no trace in the
+/// handle's shared bookkeeping, and later transactions see and extend the prior committed state.
+/// Needs the I/O shim (fault mode); returns the number of injected failures.
+fn failed_commit_case(h: &History, path: &std::path::Path, vio: &crate::vio::Vio, viol: &mut Vec<(String, String)>) -> Result<u64, String> {
+    use crate::exec::Run;
+    let _ = std::fs::remove_file(path);
+    // build everything but the last committing transaction
+    let last = match h.txs.iter().rposition(|t| t.end == End::Commit && !t.ops.iter().any(|o| matches!(o, Op::Misuse { .. }))) {
+        Some(i) if i > 0 => i,
+        _ => return Ok(0),
+    };
+    let mut base = h.clone();
+    base.txs.truncate(last);
+    for t in base.txs.iter_mut() {
+        t.reopen = false;
+    }
+    let out = exec::run_history(&base, &ExecCfg::default(), path);
+    if out.aborted {
+        return Err("could not build the state (C01 territory)".into());
+    }
+    let image = std::fs::read(path).map_err(|e| e.to_string())?;
+    let mut pre = MBucket::default();
+    replay_model(&base, &mut pre);
+    let target = &h.txs[last];
+    // count the commit's writes
+    let cfg = ExecCfg::default();
+    let n_writes = {
+        let db = exec::open_db(path, h).map_err(|e| e.to_string())?;
+        let mut run = Run::new(&cfg, h.pagesize);
+        let mut m = pre.clone();
+        vio.reset();
+        exec::exec_tx(&mut run, &db, path, target, 0, &mut m);
+        let s = vio.stats();
+        if run.out.aborted {
+            return Err("target transaction disagreed with the model".into());
+        }
+        s.writes
+    };
+    let mut injected = 0;
+    // fail the first, a middle and the last data write, and the header write, with nothing written
+    let mut idxs: Vec<i64> = vec![0, (n_writes as i64) / 2, n_writes as i64 - 2, n_writes as i64 - 1];
+    idxs.sort();
+    idxs.dedup();
+    for nth in idxs.into_iter().filter(|i| *i >= 0) {
+        std::fs::write(path, &image).map_err(|e| e.to_string())?;
+        let db = exec::open_db(path, h).map_err(|e| e.to_string())?;
+        let before = db.verif_state();
+        let mut run = Run::new(&cfg, h.pagesize);
+        run.tolerate_commit_err = true;
+        let mut m = pre.clone();
+        vio.reset();
+        vio.arm(crate::vio::CLASS_WRITE, nth, libc::EIO, crate::vio::KIND_FAIL);
+        let r = util::catch(|| exec::exec_tx(&mut run, &db, path, target, 0, &mut m));
+        let fired = vio.stats().fired > 0;
+        vio.reset();
+        if r.is_err() || run.out.aborted || !fired || run.last_commit_err.is_none() {
+            continue; // panics and half-applied states are C11's business
+        }
+        injected += 1;
+        // the write failed with nothing written, so the header never reached the file: prior state
+        let tx = db.tx(false).map_err(|e| e.to_string())?;
+        if let Some(d) = exec::verify_tx_against(&tx, &pre, false) {
+            viol.push((format!("failed-commit:state-changed:{}", exec::classify_diff(&d)), format!("after a commit that failed at write #{} (nothing written) the handle shows: {}", nth, d)));
+            continue;
+        }
+        drop(tx);
+        let mut after = db.verif_state();
+        // the file may have been extended (and remapped) before the write failed: that is not a logical trace
+        after.map_len = before.map_len;
+        if after != before {
+            viol.push((
+                "failed-commit:shared-state-changed".into(),
+                format!("a commit that failed at write #{} (nothing written, prior state still current) changed the handle's shared bookkeeping: {:?} -> {:?}", nth, before, after),
+            ));
+            continue;
+        }
+        // and later commits behave as if the failed one had never existed
+        let strict = ExecCfg { verify_after_commit: true, fileck_each_commit: true, ..Default::default() };
+        let mut run2 = Run::new(&strict, h.pagesize);
+        let mut m2 = pre.clone();
+        let r = util::catch(|| {
+            exec::exec_tx(&mut run2, &db, path, target, 1, &mut m2);
+        });
+        if r.is_err() {
+            viol.push(("failed-commit:retry-panics".into(), format!("retrying the transaction after its commit failed at write #{} panicked", nth)));
+        } else if let Some(v) = run2.out.violations.first() {
+            viol.push((format!("failed-commit:retry:{}", v.sig), format!("retrying the transaction after its commit failed at write #{}: {}", nth, v.detail)));
+        }
+    }
+    Ok(injected)
+}
+
 /// apply the committed transactions of a history to a model (handles numbering as in exec)
 pub fn replay_model(h: &History, committed: &mut MBucket) {
     for t in &h.txs {
@@ -265,6 +365,8 @@ pub fn run(ctx: &Ctx) -> Shard {
     let mut twins = 0u64;
     let mut twin_commits = 0u64;
     let mut rolled_back_ops_max = 0u64;
+    let vio = crate::vio::Vio::get();
+    let mut failed_commits = 0u64;
 
     let histories: Vec<History> = if let Some(rp) = &ctx.replay {
         let doc: serde_json::Value = serde_json::from_slice(&std::fs::read(rp).expect("read replay")).expect("parse");
@@ -362,6 +464,21 @@ pub fn run(ctx: &Ctx) -> Shard {
             }
             let _ = std::fs::remove_file(&p3);
         }
+        // (e) failing commits, on a fifth of the histories (needs the I/O shim)
+        if let Some(vio) = &vio {
+            if i % 5 == 1 || ctx.replay.is_some() {
+                let p4 = scratch.fresh("e");
+                let mut v: Vec<(String, String)> = Vec::new();
+                match failed_commit_case(h, &p4, vio, &mut v) {
+                    Ok(n) => failed_commits += n,
+                    Err(e) => shard.inconclusive(e),
+                }
+                for (sig, detail) in v {
+                    shard.violation(ctx, &sig, &detail, &serde_json::json!({"kind": "history", "history": h, "part": "failed-commit"}));
+                }
+                let _ = std::fs::remove_file(&p4);
+            }
+        }
         if shard.samples.len() < 2 {
             shard.sample(serde_json::json!({"origin": h.origin, "txs": h.txs.iter().map(|t| format!("{:?}({} ops)", t.end, t.ops.len())).collect::<Vec<_>>() }));
         }
@@ -373,6 +490,7 @@ pub fn run(ctx: &Ctx) -> Shard {
     shard.count("twin_runs", twins);
     shard.count("twin_commits_compared", twin_commits);
     shard.count("read_only_mutator_calls", ro_calls);
+    shard.count("commits_failed_by_injected_write_error_and_checked_for_traces", failed_commits);
     shard.count("max_ops_in_a_rolled_back_tx", rolled_back_ops_max);
     for ((op, kind), n) in &total.op_results {
         if kind != "ok" && kind != "some" && kind != "none" {
